@@ -26,14 +26,23 @@ theorem C10_host_order_matters :
     decodeChunkType false (flagsByte true false false) = ⟨false, false, true⟩ := by decide
 
 /-- **Chunk reassembly**: for every payload and every partition of it into chunks of fewer than 2^24
-    bytes (empty chunks allowed, any number of chunks, either byte-order flag), with the `last` flag on
+    bytes (empty chunks allowed, at least one chunk, either byte-order flag), with the `last` flag on
     the final chunk, `stream2bytearray` returns the payload; bytes after the final chunk are ignored. -/
 theorem C10_dechunk (little : Bool) (payload : Bytes) (chunks : List Bytes) (junk : Bytes)
     (hpart : chunks.flatten = payload) (hsize : ∀ c ∈ chunks, c.length < 2 ^ 24)
-    (hjunk : chunks = [] → junk = []) :
+    (hne : chunks ≠ []) :
     stream2bytearray true (chunkEncode little chunks ++ junk) = .ok payload := by
   rw [← hpart]
-  exact stream2bytearray_encode little chunks hsize junk hjunk
+  exact stream2bytearray_encode little chunks hsize junk hne
+
+set_option maxRecDepth 100000 in
+/-- since fix 72d8e7c a stream that ends early is refused instead of being decoded to a shorter payload:
+    no data at all, a header cut short, a body cut short, no chunk flagged `last` -/
+theorem C10_truncated_refused :
+    stream2bytearray true [] = .error .eofError
+    ∧ stream2bytearray true [4, 0, 0] = .error .eofError
+    ∧ stream2bytearray true [5, 0, 0, 2, 7] = .error .eofError
+    ∧ stream2bytearray true [4, 0, 0, 1, 7] = .error .eofError := ⟨rfl, rfl, rfl, rfl⟩
 
 /-- **Byte order**: an item of any width `w` (1, 2, 4, 8 in DAP4) written in either byte order and
     read with the same flag is the value written -/
@@ -59,11 +68,11 @@ theorem C10_decode_layout (little : Bool) (ss : List Sent) (h : ∀ s ∈ ss, Se
 theorem C10_response (little : Bool) (layoutsOf : Bytes → Except Dap4.Err (List Layout))
     (dmr : Bytes) (ss : List Sent) (chunks : List Bytes)
     (hd : dmr.length < 2 ^ 24) (hl : layoutsOf dmr = .ok (ss.map Sent.layout))
-    (hs : ∀ s ∈ ss, SentOk s) (hc : ∀ c ∈ chunks, c.length < 2 ^ 24)
+    (hs : ∀ s ∈ ss, SentOk s) (hc : ∀ c ∈ chunks, c.length < 2 ^ 24) (hne : chunks ≠ [])
     (hp : chunks.flatten = serialise little ss) :
     unpackResponse true layoutsOf (encodeResponse little dmr chunks)
       = .ok (dmr, little, ss.map fun s => ⟨s.values, some (swapped little s.checksum)⟩) :=
-  unpackResponse_encode little layoutsOf dmr ss chunks hd hl hs hc hp
+  unpackResponse_encode little layoutsOf dmr ss chunks hd hl hs hc hne hp
 
 /-- **Decode order = document order**: for every abstract DMR spec — groups nested to any depth, variables and
     groups interleaved in any order (a variable declared after a sibling group included) — that is locally well
@@ -104,18 +113,19 @@ theorem C10_response_document_order (little : Bool) (tree : Bytes → XNode) (it
     (hok : s.ok) (hres : refsResolve s) (hn : distinctNodes s) (hdims : distinctDims s)
     (hss : ss.map Sent.layout = (expectVars s).map (recLayout itemsize))
     (hd : dmr.length < 2 ^ 24) (hs : ∀ x ∈ ss, SentOk x) (hc : ∀ c ∈ chunks, c.length < 2 ^ 24)
-    (hp : chunks.flatten = serialise little ss) :
+    (hne : chunks ≠ []) (hp : chunks.flatten = serialise little ss) :
     unpackResponse true
         (fun b => match decodeOrder (tree b) with
           | .ok rs => .ok (rs.map (recLayout itemsize))
           | .error _ => .error .keyError)
         (encodeResponse little dmr chunks)
       = .ok (dmr, little, ss.map fun x => ⟨x.values, some (swapped little x.checksum)⟩) := by
-  apply C10_response little _ dmr ss chunks hd _ hs hc hp
+  apply C10_response little _ dmr ss chunks hd _ hs hc hne hp
   simp only [htree, C10_decode_order pre name s hok hres hn hdims, hss]
 
 /-! ### non-vacuity -/
 
+set_option maxRecDepth 100000 in
 example : stream2bytearray true (chunkEncode true [[1, 2], [], [3]]) = .ok [1, 2, 3] := by rfl
 example : chunkEncode false [[1, 2], [3]] = [0, 0, 0, 2, 1, 2, 1, 0, 0, 1, 3] := by decide
 example : SentOk ⟨2, [1, 65535], 7⟩ := ⟨by decide, by decide⟩
